@@ -503,7 +503,7 @@ def _placements(rnd, species):
 
 def gen_cases(tier, seed):
     rnd = random.Random(1000003 * seed + 17)
-    target = 3000 if tier == "quick" else 100000
+    target = 3000 if tier == "quick" else 80000
     cases = []
     seen = set()
     nbase = 0
